@@ -15,9 +15,11 @@ import (
 	"bufio"
 	"bytes"
 	"context"
+	"encoding/binary"
 	"encoding/hex"
 	"encoding/json"
 	"fmt"
+	"hash/crc32"
 	"math/rand"
 	"os"
 	"os/exec"
@@ -1105,6 +1107,11 @@ func c20BlockFormats(ctx *core.Ctx, obs []c20BlockObs, rp *c20Reporter) {
 			codec, op = "gzip", "gzip.stored "
 			in.Len = gzLens[(i/10)%len(gzLens)]
 		}
+		if i%10 == 4 {
+			// raw DEFLATE from the fixed-Huffman literal encoder (proved: inflate_fixedLiterals_id);
+			// the gzip member around it is made here
+			codec, op = "gzip", "inflate.fixedenc "
+		}
 		reqs = append(reqs, op+core.Hex(in.Bytes()))
 		ins, codecs = append(ins, in), append(codecs, codec)
 	}
@@ -1123,6 +1130,13 @@ func c20BlockFormats(ctx *core.Ctx, obs []c20BlockObs, rp *c20Reporter) {
 		src := strings.TrimPrefix(a, "ok ")
 		if src == "-" {
 			src = ""
+		}
+		if strings.HasPrefix(reqs[i], "inflate.fixedenc ") {
+			x := ins[i].Bytes()
+			m := append([]byte{0x1f, 0x8b, 8, 0, 0, 0, 0, 0, 0, 255}, mustHex(src)...)
+			m = binary.LittleEndian.AppendUint32(m, crc32.ChecksumIEEE(x))
+			m = binary.LittleEndian.AppendUint32(m, uint32(len(x)))
+			src = hex.EncodeToString(m)
 		}
 		k := fmt.Sprintf("%s/%d", codecs[i], i/12)
 		sc := bySc[k]
